@@ -334,6 +334,12 @@ def tryCatch (m : M α) (h : PyExc → Option (M α)) : M α := fun c s =>
     | some m' => m' c s'
     | none => (.error e, s')
 
+/-- run `m` as a method of a *different* (new) object: the caller's oneshot cache is neither
+    read nor written -/
+def fresh (m : M α) : M α := fun c s =>
+  match m c { s with cache := {} } with
+  | (r, s') => (r, { s' with cache := s.cache })
+
 def getCache : M Cache := fun _ s => (.ok s.cache, s)
 def modifyCache (f : Cache → Cache) : M Unit := fun _ s => (.ok (), { s with cache := f s.cache })
 
@@ -744,7 +750,7 @@ def clauseOf (cls : List (List String × String)) (e : PyExc) : Option String :=
 
 /-- `psutil.Process(q)` — `_init`: `_get_ident` → `create_time()` under the _init clauses -/
 def mkProcess (q : Nat) : M Obj :=
-  tryCatch (do let c ← Plat.createTime cfg q; pure ⟨q, some c⟩)
+  tryCatch (do let c ← fresh (Plat.createTime cfg q); pure ⟨q, some c⟩)
     (fun e =>
       match clauseOf cfg.initClauses e with
       | some "pass" => some (pure ⟨q, none⟩)
@@ -755,7 +761,7 @@ def mkProcess (q : Nat) : M Obj :=
 def createTime (o : Obj) : M Nat :=
   match o.ct with
   | some c => pure c
-  | none => Plat.createTime cfg o.pid
+  | none => fresh (Plat.createTime cfg o.pid)
 
 /-- is_running() on a fresh object (`_gone = _pid_reused = False`): (result, `_pid_reused` afterwards) -/
 def isRunning (o : Obj) : M (Bool × Bool) := do
